@@ -23,6 +23,16 @@ def roundtrip(R, pid, tier, seed, bl, sl, bs, engine, tag):
     patchlib.roundtrip_obligations(ctx, R, Prover(R, tier, cross_order=("z3-4.8.12", "cvc5")), engine, bl, sl, bs)
 
 
+def big_signature(R, pid, tier, seed, n, bs, tag):
+    ctx = deltalib.Ctx()
+    deltalib.big_signature_obligation(ctx, R, Prover(R, tier, cross_order=("z3-4.8.12", "cvc5")), n, bs)
+
+
+def async_signature(R, pid, tier, seed, n, bs, tag):
+    ctx = deltalib.Ctx()
+    deltalib.async_signature_obligation(ctx, R, Prover(R, tier, cross_order=("z3-4.8.12", "cvc5")), n, bs)
+
+
 def validate_job(R, pid, tier, seed, count, tag, engine="sync"):
     ctx = deltalib.Ctx()
     deltalib.validate(ctx, R, seed, count, engine=engine)
@@ -39,7 +49,10 @@ def run(R, tier, seed):
     R.assumptions += ["concrete lengths (one instance per (basis length, source length, block size)), symbolic contents; the instance list is the bound",
                       "hash collisions are outside the claim; weak-hash collisions with different content ARE covered (D is an arbitrary function)",
                       "covered engines: CopiaSync::delta and the AsyncCopiaSync::delta state machine (from its coroutine MIR; in-memory reader always ready), plus op-for-op agreement of the two",
-                      "NOT covered: inputs longer than the bound (> 64 KiB bases, the rayon path), AsyncCopiaSync::signature (block size >= 512 by construction), sync_files, the CLI file chain through bincode",
+                      "the parallel (> 64 KiB) branch of Signature::generate is decided separately on inputs of 65537..200000 symbolic bytes: its blocks equal the sequential "
+                      "definition (rayon adaptors modelled as order-preserving sequential ones); the delta scan itself is only run at small sizes",
+                      "AsyncCopiaSync::signature (coroutine MIR) is shown equal to Signature::generate on small inputs delivered in ARBITRARY pieces (every read may be short)",
+                      "NOT covered: deltas of inputs longer than the bound, sync_files, the CLI file chain through bincode",
                       "in-memory readers never fail (the io::Error path of delta() is not explored)"]
     insts = QUICK if tier == "quick" else THOROUGH
     jobs = [("obligations.c01", "validate_job", dict(pid="C01", tier=tier, seed=seed, count=40 if tier == "quick" else 300, tag="validate")),
@@ -57,6 +70,15 @@ def run(R, tier, seed):
             jobs.append(("obligations.c01", "roundtrip", dict(pid="C01", tier=tier, seed=seed, bl=bl, sl=sl, bs=bs, engine=eng,
                                                               tag="%s-roundtrip[bl=%d,sl=%d,bs=%d]" % (eng, bl, sl, bs))))
     R.extra["roundtrip_instances"] = [list(x) for x in rts]
+    bigs = [(70036, 1000), (65537, 4096), (131073, 65536)] if tier == "quick" else \
+        [(70036, 1000), (65537, 4096), (131073, 65536), (66000, 512), (70036, 700), (66000, 100), (200000, 8192), (65600, 33)]
+    for (n, bs) in bigs:
+        jobs.append(("obligations.c01", "big_signature", dict(pid="C01", tier=tier, seed=seed, n=n, bs=bs, tag="parallel-signature[n=%d,bs=%d]" % (n, bs))))
+    R.extra["parallel_signature_instances"] = [list(x) for x in bigs]
+    asigs = [(3, 2), (4, 3), (2, 1), (0, 2)] if tier == "quick" else [(3, 2), (4, 3), (2, 1), (0, 2), (4, 2), (5, 2), (6, 3), (5, 5)]
+    for (n, bs) in asigs:
+        jobs.append(("obligations.c01", "async_signature", dict(pid="C01", tier=tier, seed=seed, n=n, bs=bs, tag="async-signature[n=%d,bs=%d]" % (n, bs))))
+    R.extra["async_signature_instances"] = [list(x) for x in asigs]
     # biggest instances first so the pool drains evenly
     jobs.sort(key=lambda j: -(j[2].get("bl", 0) + j[2].get("sl", 0)) * (2 if j[2].get("which") == "C01-agree" else 1))
     R.extra["instances"] = [list(x) for x in insts]
